@@ -15,6 +15,9 @@ rsync -a --exclude .git /repo/ "$W/clean/"; rsync -a --exclude .git /repo/ "$W/m
 cp "$HERE/known-findings.txt" "$W/home/" 2>/dev/null
 (cd "$W/mut" && patch -p1 -s < "$SRC/patch.diff") || { echo "$NAME: patch does not apply"; exit 3; }
 (cd "$W/mut" && go build ./... ) || { echo "$NAME: does not build"; exit 3; }
+# a change that ADDS an API cannot have a demonstration that compiles on the unchanged tree: the
+# author then supplies reference.diff, a correct implementation of the same API, as the passing side
+if [ -f "$SRC/reference.diff" ]; then (cd "$W/clean" && patch -p1 -s < "$SRC/reference.diff") || { echo "$NAME: reference.diff does not apply"; exit 3; }; REF=1; else REF=0; fi
 suite=pass; (cd "$W/mut" && go test -vet=off -count=1 ./... >"$W/suite.log" 2>&1) || suite=FAIL
 demos=$(cd "$SRC" && ls *_test.go)
 mkdir -p "$W/mut/$PKG" "$W/clean/$PKG"; for f in $demos; do cp "$SRC/$f" "$W/mut/$PKG/zz_$f"; cp "$SRC/$f" "$W/clean/$PKG/zz_$f"; done
@@ -28,6 +31,7 @@ if [ "$suite" = pass ] && [ "$demo_mut" = FAIL ] && [ "$demo_clean" = pass ]; th
   D="$HERE/seeded/$NAME"; mkdir -p "$D"
   cp "$SRC/patch.diff" "$D/"; for f in $demos; do cp "$SRC/$f" "$D/$f"; done
   [ -f "$SRC/notes.md" ] && cp "$SRC/notes.md" "$D/notes.md"
+  [ -f "$SRC/reference.diff" ] && cp "$SRC/reference.diff" "$D/reference.diff"
   detail=$(echo "$out" | grep -m1 '^replayed:' | cut -c1-600)
   jq -n --arg p "$ID" --arg name "$NAME" --arg pkg "$PKG" --arg run "$RUN" --arg suite "$suite" --arg dm "$demo_mut" --arg dc "$demo_clean" --argjson code $code --arg inv "$inv" --arg detail "$detail" --arg race "${SEED_RACE:-}" \
     '{property:$p,name:$name,demo_package:$pkg,demo_run:$run,demo_needs_race:($race!=""),confirmed:{existing_suite_with_change:$suite,demo_with_change:$dm,demo_without_change:$dc,how:"tools/seedcheck.sh: scratch copies of /repo, patch -p1, go test -vet=off -count=1 ./..., demo copied into the package and run with and without the change"},check:{tier:"quick",exit:$code,detected:($code==1),invariants:$inv,first_report:$detail}}' > "$D/meta.json"
